@@ -14,7 +14,7 @@
 #include "kmodel.h"
 #include "pmodel.h"
 
-#define MAXI 4
+#define MAXI 8
 #define SIGA SIGUSR1
 #define SIGB SIGUSR2
 
@@ -347,6 +347,21 @@ void sx_main(void)
 		I[i].signum = ((int)sx_opt("twosigs", 0) && i == nI - 1) ? SIGB : SIGA;
 		I[i].owner = (nThreads > 1 && i == nI - 1) ? 1 : 0;
 	}
+	if (sx_opt("permute", 0)) {
+		/* every order of registration (the interests sit at increasing addresses) */
+		int left[MAXI], n = nI, k, c;
+
+		for (i = 0; i < nI; i++)
+			left[i] = i;
+		while (n > 0) {
+			c = n > 1 ? sx_choose(n) : 0;
+			do_register(&I[left[c]]);
+			for (k = c; k < n - 1; k++)
+				left[k] = left[k + 1];
+			n--;
+		}
+		sx_cover("signal.registration-order-permuted");
+	} else
 	for (i = 0; i < nI; i++)
 		if (I[i].owner == 0)
 			do_register(&I[i]);
